@@ -74,7 +74,7 @@ func replaySeq(steps []seqStep, n, k int) (mm string) {
 		vals[i] = 9000 + i
 	}
 	b.Func(fn.F).Returns(vals...)
-	s := gate.New("matcher.loaded")
+	s := gate.New("matcher.loaded", "matcher.added")
 	mocker.VerifHook = s.Hook
 	defer func() {
 		mocker.VerifHook = nil
@@ -82,12 +82,23 @@ func replaySeq(steps []seqStep, n, k int) (mm string) {
 	}()
 	procs := map[int]bool{}
 	for _, st := range steps {
-		if !procs[st.G] {
+		if st.Act != "Probe" && !procs[st.G] {
 			procs[st.G] = true
 			s.Spawn(st.G, k, func() int { return fn.F(0) })
 		}
 	}
 	for i, st := range steps {
+		if st.Act == "Probe" { // every caller is done: one more call, outside the gates
+			mocker.VerifHook = nil
+			var r int
+			if p := catch(func() { r = fn.F(0) }); p != "" {
+				return fmt.Sprintf("step %d Probe: the call after all callers are done: %s", i, p)
+			}
+			if r != 9000+st.Idx {
+				return fmt.Sprintf("step %d Probe: the call after all callers are done: spec element %d, real result %d", i, st.Idx, r-9000)
+			}
+			continue
+		}
 		ev, err := s.Step(st.G)
 		if err != nil {
 			panic(fmt.Sprintf("gate: %v (schedule step %d)", err, i))
@@ -97,7 +108,11 @@ func replaySeq(steps []seqStep, n, k int) (mm string) {
 			if ev.Point != "matcher.loaded" {
 				return fmt.Sprintf("step %d Load(g%d): expected to stop after the atomic load, got %s val=%d %s", i, st.G, ev.Point, ev.Val, ev.Msg)
 			}
-		case "Add", "RetLast":
+		case "Add":
+			if ev.Point != "matcher.added" {
+				return fmt.Sprintf("step %d Add(g%d): expected to stop after the atomic add, got %s val=%d %s", i, st.G, ev.Point, ev.Val, ev.Msg)
+			}
+		case "Ret", "RetLast":
 			if ev.Point != "ret" {
 				return fmt.Sprintf("step %d %s(g%d): expected the call to return element %d, got %s %s", i, st.Act, st.G, st.Idx, ev.Point, ev.Msg)
 			}
